@@ -157,7 +157,7 @@ static json run_job(const json& job)
                 json props = json::array();
                 for (auto& p : pb->getProperties())
                     props.push_back(json{{"type", (int)p.type}, {"s", vh::safe_str(p.intermediate)},
-                                         {"t", vh::expr_tree(p.intermediate, doc.get(), false)}});
+                                         {"t", vh::expr_tree(p.intermediate, doc.get(), job.value("query_types", false))}});
                 r["props"] = props;
             });
             json errs = json::array();
